@@ -233,4 +233,42 @@ pub fn run_c02(rng: &mut Rng, out: &mut Out, n: usize) {
         out.count(&format!("corruption:{class}:{}", if sat { "still-satisfying" } else { "unsatisfying" }));
         out.case(&req("c01", field, hasher, &inst, pert, &opts), if sat { "ok" } else { "reject" }, || run_cfg(field, hasher, &inst, &claimed, &opts, None).verdict);
     }
+    // statements that are false only in the AUXILIARY segment: the main trace, the public inputs and
+    // every main constraint are honest; the prover's auxiliary trace violates an auxiliary
+    // assertion (column generated from a shifted initial value: all transitions still hold) or an
+    // auxiliary transition / assertion (one cell changed).  Few main assertions, so that there are
+    // at least as many auxiliary assertions as main ones in many instances.
+    let mut done = 0usize;
+    let mut tries = 0usize;
+    while done < (n + 1) / 2 && tries < 40 * n + 40 {
+        tries += 1;
+        let (field, hasher) = pick_cfg(rng);
+        let p = modulus(field);
+        let ml = *rng.pick(&[3u64, 4, 5]);
+        let mut inst = gen_instance(rng, p, ml, true);
+        if inst.desc.aux_width == 0 { continue; }
+        if done % 2 == 0 { inst.desc.asserts.truncate(1); }
+        let opts = gen_opts(rng, &inst, field, false);
+        let claimed = claimed_of(&inst, None);
+        if !satisfies(&inst, &build_trace(&inst, p), &claimed, p) { continue; }
+        let aw = inst.desc.aux_width;
+        let (nn, e) = (inst.n, inst.desc.exemptions);
+        let col = if done % 3 == 0 { aw - 1 } else { rng.below(aw as u64) as usize };
+        let delta = 1 + rng.below(5) as u128;
+        let (auxc, class) = match done % 4 {
+            0 | 1 => ((usize::MAX, col, delta), "aux-shift"),
+            2 => ((rng.range(1, (nn - e).max(2) as u64 - 1) as usize, col, delta), "aux-cell"),
+            _ => ((nn - 1, col, delta), "aux-cell-last"),
+        };
+        // truth of the statement (mirrored by the model's `auxCorruptionSatisfied`)
+        let asserted = |c: usize, r: usize| inst.desc.aux_asserts.iter().any(|a| a.col == c && a.kind == 0 && a.first == r);
+        let sat = if auxc.0 == usize::MAX { !inst.desc.aux_asserts.iter().any(|a| a.col == col) }
+            else { !((auxc.0 >= 1 && auxc.0 - 1 < nn - e) || asserted(col, auxc.0)) };
+        out.count(&format!("corruption:{class}:{}:aux-asserts{}main", if sat { "still-satisfying" } else { "unsatisfying" },
+            if inst.desc.aux_asserts.len() > inst.desc.asserts.len() { ">" } else { "<=" }));
+        let auxs = format!("{}:{}:{}", if auxc.0 == usize::MAX { "shift".to_string() } else { auxc.0.to_string() }, auxc.1, auxc.2);
+        out.case(&format!("{} {auxs}", req("c01", field, hasher, &inst, None, &opts)), if sat { "ok" } else { "reject" },
+            || run_cfg(field, hasher, &inst, &claimed, &opts, Some(auxc)).verdict);
+        done += 1;
+    }
 }
